@@ -183,7 +183,10 @@ def run_ts_splice(prog, tier, repo):
             r, p = operand_root(b, t[3][1])
             sd = single_def(b, r)
             src = callee(sd[2])[1] if sd and sd[1] == 'term' else None
-            key = f'template-literal:{b.name}'
+            # keyed by where the spliced text comes from, not by the function that happens to do the splice today
+            what_ = '::'.join((src or 'value').split('::')[-2:])
+            kth = sum(1 for i in res.instances if i.key.startswith(f'template-literal:{what_}#')) + 1
+            key = f'template-literal:{what_}#{kth}'
             if src and re.search(r'escape|sanitiz|quote|replace', src, re.I):
                 res.ok(key, b.loc(t[7]), f'content passes through {src} before the template literal')
             else:
